@@ -142,7 +142,9 @@ PROPS = {
     "C13": dict(
         rule="rotation-rich histories (rotate_output name|fd with export in {0,1}, consecutive rotations, rotation after add+set parameters), all compression modes. Oracle: each closed output "
              "snapshotted right after rotate_output returns (final name exists, no .part), empty or schema-valid with every block-parameters-index < sets of that file's preamble, byte-identical "
-             "at the end of the history; concatenated record stream over outputs == submitted stream (model). Non-trivial: rotation with blocks on the closed side | non-exporting rotation "
+             "at the end of the history; concatenated record stream over outputs == submitted stream (model). Exhaustive alignment sweep (first record string of every length 0..2250 x 8 endings). "
+             "Many blocks: outputs receiving 65535 / 65536 / 65537 (thorough also 131072 / 131075) one-record blocks, closed by exporting rotation, non-exporting rotation or destruction, must be "
+             "complete documents holding exactly their records. Non-trivial: rotation with blocks on the closed side | non-exporting rotation "
              "with non-empty buffer | consecutive rotations.",
         level_text="model-based random histories; per-output snapshot/validation and record-stream conservation",
         level_note="records still buffered at destruction are by design not written (documented usage calls write_block first); the model accounts for them as buffered",
@@ -150,6 +152,7 @@ PROPS = {
         assumptions=[],
         jobs=[
             dict(harness="hist", prop="hist_c13align", kind="enum"),
+            dict(harness="hist", prop="c13_many_blocks", kind="enum", size=(30, 80)),
             dict(harness="hist", prop="hist_c13", cases=(8000, 200000), size=(40, 120)),
         ],
     ),
